@@ -51,6 +51,12 @@ class AstToSqlAlchemyOrmVisitor(common._CommonVisitors, visitor.NodeVisitor):
 
     def visit_Compare(self, node: ast.Compare) -> BinaryExpression:
         ":meta private:"
+        # 'null eq/ne x' means the same as 'x eq/ne null'
+        if isinstance(node.left, ast.Null) and isinstance(
+            node.comparator, (ast.Eq, ast.NotEq)
+        ):
+            node = ast.Compare(node.comparator, node.right, node.left)
+
         left = self.visit(node.left)
         right = self.visit(node.right)
         op = self.visit(node.comparator)
